@@ -234,11 +234,14 @@ class IterEdit(Op):
             out.append('itr.remove I0')
             if action == 'remove+remove':
                 out.append('itr.remove I0')
-        if action in ('update', 'remove+update'):
+        if action in ('update', 'remove+update', 'update+second'):
             out.append('pkt.create P1 0')
             for n, v in upd:
                 out.append('pkt.set P1 %s %s' % (U(n), vlit(v)))
             out.append('itr.update I0 P1')
+        if action == 'update+second':
+            # a second iterator on the same CIF is refused while this one is open, and the refusal is harmless
+            out.append('itr.open %s I1' % l)
         out.append('itr.%s I0' % finish)
         return out
 
@@ -293,8 +296,10 @@ class IterEdit(Op):
                 a = ans[-2]
                 if a.get('rc') != MISUSE:
                     probs.append('%r: %s directly after remove answered %r (CIF_MISUSE expected)' % (self, action.split('+')[1], a))
-        elif action == 'update':
+        elif action in ('update', 'update+second'):
             a = ans[pos + 1 + len(upd)]
+            if action == 'update+second' and ans[-2].get('rc') != ERROR:
+                probs.append('%r: a second get_packets while the iterator is open answered %r (CIF_ERROR expected)' % (self, ans[-2]))
             eff = {}
             for n, v in upd:
                 eff[norm(n)] = vdump(v) if v is not None else UNK
